@@ -426,7 +426,15 @@ impl World {
         match svio_dirty_in(&path, offsets[0], o as u64) {
             // -1: the interposer does not know the file (table full / not loaded): not observable, no verdict
             Some(0) | Some(-1) | None => String::new(),
-            Some(n) => format!(" !unsynced={n}"),
+            Some(n) => {
+                // diagnostic for rare unreproducible observations: is the range still dirty well after the next sync is due?
+                if std::env::var("SV_DIAG").is_ok() {
+                    std::thread::sleep(std::time::Duration::from_millis(300));
+                    let later = svio_dirty_in(&path, offsets[0], o as u64);
+                    eprintln!("SV_DIAG unsynced={n} later={later:?} path={path:?} range={}..{}", offsets[0], o);
+                }
+                format!(" !unsynced={n}")
+            }
         }
     }
 
